@@ -74,15 +74,19 @@ class World:
         raise ValueError(mode)
 
     def mk(self, kind, issuer, app, issue, validity="current", sign="honest", issuer_field="true",
-           key_form="uncompressed", idnone=None, ctype="explicit", name=None, tag="", version=3):
-        """kind: root|aa|at ; issuer: record or None"""
+           key_form="uncompressed", idnone=None, ctype="explicit", name=None, tag="", version=3, ssp=False):
+        """kind: root|aa|at ; issuer: record or None; validity: a mode of self.validity or (start_s, (unit, amount));
+        ssp: the application permissions carry service specific permissions (as real tickets do)"""
         pki = self.pki
         key = pki.new_key()
-        start, dur = self.validity(validity)
+        start, dur = validity if isinstance(validity, tuple) else self.validity(validity)
         if idnone is None:
             idnone = (kind == "at")
         tbs = sc.make_tbs(None if idnone else (name or f"{kind}{len(self.certs)}"), app, issue, start, dur,
                           pki.pub(key, key_form))
+        if ssp and app:
+            for k, e in enumerate(tbs["appPermissions"]):
+                e["ssp"] = ("bitmapSsp", bytes([1, k, 0xFF])) if k % 2 == 0 else ("opaque", bytes([k, 9]))
         if kind == "root" or issuer is None:
             fld = ("self", "sha256")
             skey = key
@@ -411,6 +415,179 @@ def gen_time_sweep(ctx):
 
 
 # ---------------------------------------------------------------------------
+# audit round: certificates that arrive inside messages as requestedCertificate, every Duration unit, ITS-AID encodings and
+# SSP-bearing permissions, multi-entry issuers, the public issuing API (OwnCertificate.initialize_certificate)
+
+def gen_reqcert_sweep(ctx):
+    """verified messages of a genuine ticket holder that carry every kind of CA certificate as requestedCertificate, each
+    followed by messages signed under the offered chain: nothing may enter the trusted roots / authorities in-band unless it
+    verifies under an already trusted issuer"""
+    w = World(ctx.rng)
+    root = w.mk("root", None, [36], [("all", 3)], tag="root")
+    aa = w.mk("aa", root, [36], [(U, 1)], tag="aa")
+    at = w.mk("at", aa, U, None, tag="at")
+    w.op("add_root", root["ix"], -1)
+    w.op("add_aa", aa["ix"], root["ix"])
+    w.op("add_at", at["ix"], aa["ix"])
+    xroot = w.mk("root", None, [36], [("all", 3)], tag="attacker-root")
+    xaa = w.mk("aa", xroot, [36], [("all", 1)], tag="attacker-aa")
+    xat = w.mk("at", xaa, U, None, tag="attacker-at")
+    xat_r = w.mk("at", xroot, U, None, tag="attacker-at-under-attacker-root")
+    aa2 = w.mk("aa", root, [36], [(U[:2], 1)], tag="genuine-aa2-not-configured")
+    at2 = w.mk("at", aa2, U[:2], None, tag="at-under-aa2")
+    aa2x = w.resign(aa2, "aa2-resigned-by-attacker")
+    at2x = w.mk("at", aa2x, U[:2], None, tag="at-under-resigned-aa2")
+    sub_aa = w.mk("aa", xroot, [36], [("all", 1)], tag="attacker-aa-naming-genuine-root")
+    sub_aa["d"]["issuer"] = ("sha256AndDigest", sc.hashed_id8(root["d"]))
+    sub_at = w.mk("at", sub_aa, U, None, tag="at-under-attacker-aa-naming-genuine-root")
+    esc = w.mk("aa", aa, [36], [(U + [99], 1)], tag="aa-escalated-under-explicit-aa")
+    esc_at = w.mk("at", esc, [99], None, tag="at-under-escalated-aa")
+    self_at = w.mk("at", None, U, None, issuer_field="self", sign="self", tag="self-signed-ticket")
+    offered = [(xroot, [xat_r]), (xaa, [xat]), (aa2, [at2]), (aa2x, [at2x]), (sub_aa, [sub_at]), (esc, [esc_at]),
+               (self_at, [self_at]), (root, []), (at, []), (xat, [])]
+    for c, tickets in offered:
+        for signer in ("digest", "certificate"):
+            w.op("verify", w.message(at, signer, 36, extra={"requestedCertificate": c["d"]},
+                                     payload=bytes([ctx.rng.randrange(256) for _ in range(5)])))
+            for t in tickets:
+                for sg in ("certificate", "digest"):
+                    w.op("verify", w.message(t, sg, (sc.app_psids(t["d"]) or [36])[0]))
+                w.op("verify_chain", [t["ix"]])
+                w.op("add_at", t["ix"], c["ix"])
+    # the same offers inside messages that do NOT verify (attacker key): nothing may be processed
+    for c, _ in offered[:5]:
+        w.op("verify", w.message(at, "digest", 36, key="attacker", extra={"requestedCertificate": c["d"]}))
+    # inlineP2pcdRequest naming CA certificates the station holds / does not hold
+    w.op("verify", w.message(at, "digest", 36, extra={"inlineP2pcdRequest": [sc.hashed_id8(x["d"])[-3:] for x in
+                                                                              (root, aa, xroot, aa2, at)]}))
+    return w.history()
+
+
+UNITS = [("microseconds", 65535), ("microseconds", 0), ("milliseconds", 60000), ("seconds", 5000), ("minutes", 90),
+         ("hours", 5), ("sixtyHours", 2), ("years", 1), ("years", 19), ("hours", 65535), ("years", 0)]
+
+
+def gen_unit_sweep(ctx, units):
+    """generation times around both ends of the validity period for tickets in every Duration unit (a year is 31556952 s),
+    for tickets that were added beforehand (digest and certificate signer) and for tickets first seen in the message"""
+    w = World(ctx.rng)
+    root = w.mk("root", None, [36], [("all", 2)], tag="root")
+    aa = w.mk("aa", root, [36], [(U, 1)], tag="aa")
+    w.op("add_root", root["ix"], -1)
+    w.op("add_aa", aa["ix"], root["ix"])
+    n = now_s()
+    for unit, amount in units:
+        for start in (n - 1000, 0):
+            at = w.mk("at", aa, [36, 37], None, validity=(start, (unit, amount)), tag=f"at/{unit}{amount}/start{start}")
+            w.op("add_at", at["ix"], aa["ix"])
+            s, e = sc.validity_us(at["d"])
+            far = e + max(1, (e - s) // 300)
+            for gen in (s - 1, s, e, e + 1, far):
+                if gen < 0:
+                    continue
+                for signer in ("digest", "certificate"):
+                    w.op("verify", w.message(at, signer, 36, gen))
+                fresh = w.mk("at", aa, [36, 37], None, validity=(start, (unit, amount)), tag=f"fresh/{unit}{amount}/{gen - s}")
+                w.op("verify", w.message(fresh, "certificate", 36, gen))
+                w.op("verify", w.message(fresh, "digest", 36, gen))
+    return w.history()
+
+
+PSIDS = [0, 36, 127, 128, 292, 16383, 16384, 65572, 2097151, 2097152]
+
+
+def gen_psid_sweep(ctx):
+    """ITS-AIDs whose encoding takes one to four octets, values equal modulo 256 / 65536, ITS-AID 0; permissions with SSP"""
+    w = World(ctx.rng)
+    root = w.mk("root", None, [36], [("all", 3)], tag="root")
+    w.op("add_root", root["ix"], -1)
+    for allowed in (PSIDS[::2], PSIDS[1::2], [36], PSIDS):
+        aa = w.mk("aa", root, [36], [(allowed, 1)], tag=f"aa/{allowed}", ssp=True)
+        w.op("add_aa", aa["ix"], root["ix"])
+        for p in PSIDS:
+            for ssp in (False, True):
+                at = w.mk("at", aa, [p], None, tag=f"at/{p}/under{allowed}", ssp=ssp)
+                w.op("add_at", at["ix"], aa["ix"])
+        both = w.mk("at", aa, allowed[:2], None, tag="at/two", ssp=True)
+        w.op("add_at", both["ix"], aa["ix"])
+        for p in PSIDS:
+            w.op("verify", w.message(both, "digest" if p != 37 else "certificate", p))
+        over = w.mk("at", aa, allowed[:1] + [PSIDS[3] if PSIDS[3] not in allowed else 777], None, tag="at/one-outside", ssp=True)
+        w.op("add_at", over["ix"], aa["ix"])
+        w.op("verify", w.message(over, "certificate", allowed[0]))
+    return w.history()
+
+
+# subjects whose issuing permissions have several entries: an 'all' entry in any position claims everything
+MULTI_ENTRY_SUBJECTS = [([36], [([36], 1), ("all", 1)]), ([36], [("all", 1), ([36], 1)]), ([36], [([36], 1), ([37], 1)]),
+                        ([36], [([36], 1), ([99], 1)]), ([36, 37], [([36], 2), ([37], 1), ("all", 1)])]
+MULTI_ENTRY_ISSUERS = [[([36], 1), ([37, 638], 1)], [("all", 1), ([36], 1)], [([36], 1), ("all", 1)], [([36], 0), ([37], 1)],
+                       [([36, 37], 2), ([638], 1), ([139], 3)]]
+
+
+def init_api_history(ctx, root_perm, want_issue, levels):
+    """the public issuing API, OwnCertificate.initialize_certificate(backend, to_be_signed, issuer), along a chain: root,
+    `levels` subordinate authorities (each requesting `want_issue`), a ticket under every authority (one inside, one outside
+    the authority's permissions). Every certificate it returns goes through the issuing oracle and is then offered to the
+    library (add_aa / add_at + a message signed by the ticket holder), so that the store oracle and the model see it too."""
+    from flexstack.security.certificate import OwnCertificate
+    from flexstack.security.ecdsa_backend import PythonECDSABackend
+    w = World(ctx.rng)
+    be = PythonECDSABackend()
+    orc = Oracle()
+    n = now_s()
+
+    def tbs(name, app, issue):
+        return sc.make_tbs(name, app, issue, n - 1000, ("hours", 24), ("ecdsaNistP256", ("fill", None)))
+
+    def init(t, issuer_rec, tag):
+        inp = {"api": "OwnCertificate.initialize_certificate", "to_be_signed": repr(t)[:600],
+               "issuer": None if issuer_rec is None else sc.enc_cert(issuer_rec["d"]).hex(), "tag": tag}
+        ctx.count(1, "init_api:" + tag.split("/")[0])
+        try:
+            out = OwnCertificate.initialize_certificate(be, copy.deepcopy(t), None if issuer_rec is None else issuer_rec["own"])
+        except Exception as e:  # noqa: BLE001  refused by raising
+            ctx.dist["init_api_raised:" + type(e).__name__] = ctx.dist.get("init_api_raised:" + type(e).__name__, 0) + 1
+            return None
+        w.pki.keys.append(be.keys[out.key_id])
+        rec = w.add(out.certificate, len(w.pki.keys) - 1, issuer_rec, "init_api/" + tag)
+        rec["own"] = out
+        if issuer_rec is not None:
+            try:
+                verifies = bool(out.verify(be))
+            except Exception:  # noqa: BLE001
+                verifies = False
+            rec["verifies"] = verifies
+            if verifies:
+                orc.check_issued(ctx, out.certificate, issuer_rec["d"], inp)
+                ctx.nontriv(("init_api", sc.enc_cert(out.certificate).hex()[:64]))
+            ctx.dist["init_api:" + ("verifies" if verifies else "refused")] = \
+                ctx.dist.get("init_api:" + ("verifies" if verifies else "refused"), 0) + 1
+        return rec
+
+    root = init(tbs("root", [36], root_perm), None, "root")
+    if root is None:
+        return None
+    w.op("add_root", root["ix"], -1)
+    cur = root
+    for depth in range(levels):
+        al = allowed_of(cur)
+        inside = al[:2] or [36]
+        outside = [p for p in U + [99] if p not in al][:1] or [99]
+        for tag, app in (("ticket_inside", inside), ("ticket_outside", inside[:1] + outside)):
+            t = init(tbs(None, app, None), cur, f"{tag}/depth{depth}")
+            if t is not None:
+                w.op("add_at", t["ix"], cur["ix"])
+                w.op("verify", w.message(t, "certificate", app[0]))
+        nxt = init(tbs(f"ca{depth}", [36], want_issue), cur, f"authority/depth{depth}")
+        if nxt is None:
+            break
+        w.op("add_aa", nxt["ix"], cur["ix"])
+        cur = nxt
+    return w.history()
+
+
+# ---------------------------------------------------------------------------
 # execution of a history on the implementation (+ property oracle) and on the model
 
 class Oracle:
@@ -419,12 +596,14 @@ class Oracle:
     def __init__(self):
         self.link_cache = {}
         self.anch = set()
+        self.configured = set()     # OER bytes of the certificates the operator configured through add_root_certificate
 
     def anchored(self, d, st, depth=0):
         enc = sc.enc_cert(d)
         if enc in self.anch:
             return True, ""
-        roots = [v.certificate for v in st.lib.known_root_certificates.values()]
+        # 'up to a configured root': the oracle's roots are the ones it saw being configured, not whatever the library holds
+        roots = [v.certificate for v in st.lib.known_root_certificates.values() if sc.enc_cert(v.certificate) in self.configured]
         if any(sc.enc_cert(r) == enc for r in roots):
             self.anch.add(enc)
             return True, ""
@@ -449,6 +628,10 @@ class Oracle:
         return False, reason
 
     def check_store(self, ctx, st, inp):
+        for k, v in st.lib.known_root_certificates.items():
+            if sc.enc_cert(v.certificate) not in self.configured:
+                ctx.property_failure("store_root_not_configured", inp, f"trusted root {k.hex()} was never configured through "
+                                     "add_root_certificate: a trust anchor entered the store in-band")
         for name, dct in (("aas", st.lib.known_authorization_authorities), ("ats", st.lib.known_authorization_tickets)):
             for k, v in dct.items():
                 ok, why = self.anchored(v.certificate, st)
@@ -492,6 +675,27 @@ class Oracle:
         if confirm.plain_message != pl:
             ctx.property_failure("accept_payload_differs", inp, "plain message differs from the signed payload",
                                  pl.hex(), bytes(confirm.plain_message).hex())
+
+    def check_issued(self, ctx, res, i, inp):
+        """res (dict) was obtained from the issuing API and verifies under its issuer i (dict)"""
+        if not sc.perms_contained(res, i):
+            ctx.property_failure("issue_perm_escalation", inp, "issued certificate verifies under its issuer although "
+                                 "its permissions are not contained in the issuer's issuing permissions")
+        ie = sc.issue_entries(i)
+        if ie is None or any(n < 1 for _, n in ie):
+            ctx.property_failure("issue_chain_budget", inp, "issued certificate verifies under its issuer although the "
+                                 "issuer's remaining chain length does not allow issuing", ">= 1", ie)
+        re = sc.issue_entries(res) or []
+        if re and ie and max(n for _, n in re) > max(n for _, n in ie) - 1:
+            ctx.property_failure("issue_chain_not_decreased", inp, "the issued certificate may itself issue with a chain "
+                                 "length that is not below its issuer's", max(n for _, n in ie) - 1, re)
+        if any(n < 1 for _, n in re):
+            ctx.property_failure("issue_chain_not_decreased", inp, "the issued certificate carries an issuing entry with no "
+                                 "chain length left", ">= 1", re)
+        ok, why = sc.link_ok(res, i, self.link_cache)
+        if not ok:
+            ctx.property_failure("issue_verify_" + why, inp, "Certificate.verify accepts an issued certificate that the "
+                                 "independent link check rejects")
 
     def check_issue(self, ctx, st, req_obj, iss_obj, res_obj, before, inp):
         try:
@@ -544,6 +748,8 @@ def run_history(ctx, hist, kind):
                 c, io = cd(o[1]), cd(o[2])
                 obj = st.obj(c, io, own_key=(hist["cert_key"][o[1]] if name == "add_own" and hist["cert_key"][o[1]] >= 0 else None))
                 flat_ops.append([{"add_root": 1, "add_aa": 2, "add_at": 3, "add_own": 4}[name], reg.cert(c), reg.opt(io)])
+                if name == "add_root":
+                    orc.configured.add(sc.enc_cert(c))      # the operator configures c as a trust anchor (it may be refused)
                 getattr(st.lib, {"add_root": "add_root_certificate", "add_aa": "add_authorization_authority",
                                  "add_at": "add_authorization_ticket", "add_own": "add_own_certificate"}[name])(obj)
                 res = ["unit"]
@@ -689,6 +895,24 @@ def run(ctx):
     for b in range(0, 4):
         for explicit in (False, True):
             run_history(ctx, budget_history(ctx, b, explicit), "budget_sweep")
+    # audit round
+    quick = ctx.tier == "quick"
+    run_history(ctx, gen_reqcert_sweep(ctx), "reqcert_sweep")
+    run_history(ctx, gen_unit_sweep(ctx, [UNITS[i] for i in sorted(ctx.rng.sample(range(len(UNITS)), 4))] if quick else UNITS),
+                "unit_sweep")
+    run_history(ctx, gen_psid_sweep(ctx), "psid_sweep")
+    for ip in MULTI_ENTRY_ISSUERS:
+        run_history(ctx, gen_perm_sweep(ctx, ip, (subj if not quick else subj[::3]) + MULTI_ENTRY_SUBJECTS), "perm_sweep_multi")
+    for ip in ([(U[:2], 1)], [(U, 1)], [("all", 1)]):
+        run_history(ctx, gen_perm_sweep(ctx, ip, MULTI_ENTRY_SUBJECTS), "perm_sweep_multi")
+    for root_perm in ([("all", 1)], [("all", 2)], [("all", 3)], [(U[:3], 1)], [(U[:3], 2)], [(U[:3], 3)],
+                      [(U[:2], 2), (U[2:], 1)], [("all", 2), (U[:1], 1)]):
+        for want in ([(U[:2], 1)], [("all", 1)], [(U[:1], 1), (U[1:3], 1)]):
+            if quick and ctx.rng.random() < 0.7:
+                continue
+            h = init_api_history(ctx, root_perm, want, max(n for _, n in root_perm) + 1)
+            if h is not None:
+                run_history(ctx, h, "init_api")
     n = 14 if ctx.tier == "quick" else 150
     for _ in range(n):
         run_history(ctx, gen_random_history(ctx, n_certs=26 if ctx.tier == "quick" else 34,
@@ -707,6 +931,15 @@ def replay(ctx, data):
     f = data.get("failure") or (data.get("broken") or [{}])[-1].get("first")
     ctx.model = common.Model(MODEL_NAME)
     print(json.dumps({k: v for k, v in f.items() if k != "input"}, default=str)[:2000])
+    if not (f.get("input") or {}).get("history"):
+        # found by the oracle on OwnCertificate.initialize_certificate (no library history): regenerate from seed and tier
+        ctx.rng.seed(data.get("seed", ctx.seed))
+        ctx.tier = data.get("tier", "quick")
+        run(ctx)
+        want = f.get("class") or f.get("relation")
+        hits = [r for r in ctx.failures + list(ctx.known_hits.values()) if r.get("class") == want]
+        print("REPRODUCED" if hits else "NOT REPRODUCED")
+        return 1 if hits else 0
     run_history(ctx, f["input"]["history"], "replay")
     bad = ctx.failures or ctx.mismatches or ctx.known_hits
     print("REPRODUCED" if bad else "NOT REPRODUCED")
